@@ -5,11 +5,13 @@
 #define RHO_ID 0
 #define RHO_SWAP 1
 #define RHO_SHIFT 2
+#define RHO_SWAPLAST 3   /* fast deletion: entity b (the last) takes the index a of the removed one */
 struct rho { int mode; int a; int b; };
 static inline int rho_ap(struct rho r, int i) {
   if (i < 0) return i;
   if (r.mode == RHO_SWAP) return i == r.a ? r.b : (i == r.b ? r.a : i);
   if (r.mode == RHO_SHIFT) return i > r.a ? i - 1 : i;       /* i == a is the removed entity: callers exclude it */
+  if (r.mode == RHO_SWAPLAST) return i == r.b ? r.a : i;
   return i;
 }
 static inline int rho_half(struct rho r, int h) { return h < 0 ? h : 2 * rho_ap(r, h >> 1) + (h & 1); }
@@ -81,6 +83,7 @@ static inline _Bool map_cells(const TK *o, const TK *n, struct rho rc, struct rh
 }
 /* vertex cache: n.out[rv(v)] lists rhe_half(entries of out[v]) in the same order */
 static inline _Bool map_vcache(const TK *o, const TK *n, struct rho rv, struct rho re, int skip, unsigned long dsize) {
+  if (!o->v_bottom_up_) return n->outgoing_hes_per_vertex_.size == 0;
   _Bool ok = n->outgoing_hes_per_vertex_.size + dsize == o->outgoing_hes_per_vertex_.size;
   for (unsigned long v = 0; v < LV; v++) if (v < o->outgoing_hes_per_vertex_.size && (int)v != skip) {
     int j = rho_ap(rv, (int)v);
@@ -95,6 +98,7 @@ static inline _Bool map_vcache(const TK *o, const TK *n, struct rho rv, struct r
 }
 /* edge cache: n.inc[re_half(he)] lists rf_half(entries of inc[he]) in the same order */
 static inline _Bool map_ecache(const TK *o, const TK *n, struct rho re, struct rho rf, int skip_e, unsigned long dsize) {
+  if (!o->e_bottom_up_) return n->incident_hfs_per_he_.size == 0;
   _Bool ok = n->incident_hfs_per_he_.size + dsize == o->incident_hfs_per_he_.size;
   for (unsigned long h = 0; h < 2 * LE; h++) if (h < o->incident_hfs_per_he_.size && ((int)h >> 1) != skip_e) {
     int j = rho_half(re, (int)h);
@@ -109,6 +113,7 @@ static inline _Bool map_ecache(const TK *o, const TK *n, struct rho re, struct r
 }
 /* face cache: n.icell[rf_half(hf)] == rc(icell[hf]) */
 static inline _Bool map_fcache(const TK *o, const TK *n, struct rho rf, struct rho rc, int skip_f, unsigned long dsize) {
+  if (!o->f_bottom_up_) return n->incident_cell_per_hf_.size == 0;
   _Bool ok = n->incident_cell_per_hf_.size + dsize == o->incident_cell_per_hf_.size;
   for (unsigned long h = 0; h < 2 * LF; h++) if (h < o->incident_cell_per_hf_.size && ((int)h >> 1) != skip_f) {
     int j = rho_half(rf, (int)h);
